@@ -143,8 +143,10 @@ class CallGraph:
             if p.arg == name:
                 return self._annotation_class(f, p.annotation)
         for n in N.walk_no_nested_defs(fn):
-            if isinstance(n, ast.AnnAssign) and isinstance(n.target, ast.Name) and n.target.id == name:
-                c = self._annotation_class(f, n.annotation)
+            ann = n.annotation if isinstance(n, ast.AnnAssign) else getattr(n, "_ann", None)
+            tgt = n.target if isinstance(n, ast.AnnAssign) else (n.targets[0] if isinstance(n, ast.Assign) and len(n.targets) == 1 else None)
+            if ann is not None and isinstance(tgt, ast.Name) and tgt.id == name:
+                c = self._annotation_class(f, ann)
                 if c is not None:
                     return c
         return None
